@@ -49,6 +49,22 @@ def simulated(rnd, i):
             b['objs'][-1].angular_speed = b['q']('AngularSpeed', 0)
             if err is None:
                 _, err = outcome(lambda: Solver(b['pt']).run(b['q']('TimeInterval', op['dt'], op['dt_unit']), b['q']('TimeInterval', op['dt'] * 2, op['dt_unit'])))
+        if err is None and i % 3 == 2:
+            # a history that REPLACED an earlier one of the SAME length on another grid, with the tables already queried
+            # once on the earlier history (whatever the calls keep between queries must not outlive reset())
+            import contextlib as _c, io as _io
+            n_inst = len(b['pt'].time)
+            with _c.redirect_stdout(_io.StringIO()):
+                outcome(lambda: b['pt'].snapshot(target_time=b['pt'].time[n_inst // 2], print_data=False))
+            _, err = outcome(b['pt'].reset)
+            b['objs'][-1].angular_position = b['q']('AngularPosition', 0)
+            b['objs'][-1].angular_speed = b['q']('AngularSpeed', 0)
+            if err is None:
+                d3 = op['dt'] * rnd.choice([Fraction(1, 2), Fraction(3, 4), Fraction(3, 2)])
+                u3 = rnd.choice(solver_gen.TIME_UNITS)
+                _, err = outcome(lambda: Solver(b['pt']).run(b['q']('TimeInterval', d3, u3), b['q']('TimeInterval', d3 * (n_inst - 1), u3)))
+                if err is None and len(b['pt'].time) != n_inst:
+                    err = 'length'
         if err is None:
             return b
     raise Machinery('no simulated powertrain')
